@@ -123,9 +123,13 @@ def judge_doc(doc, cases, variants):
                 # R4: second evaluation gives equal coordinates
                 if r2["out"] == "ok" and k < len(r2["hits"]):
                     h2 = r2["hits"][k]
-                    if h2.parent is not h.parent or str(h2.nc.path) != str(h.nc.path) or len(h2.nc.ancestry or []) != len(h.nc.ancestry or []):
+                    try:
+                        p1, p2 = str(h.nc.path), str(h2.nc.path)
+                    except Exception as ex:  # pylint: disable=broad-except
+                        p1, p2 = "<unprintable: %s>" % type(ex).__name__, ""    # R3 reports it
+                    if p2 and (h2.parent is not h.parent or p2 != p1 or len(h2.nc.ancestry or []) != len(h.nc.ancestry or [])):
                         problems.append(("R4", "second evaluation reports path %r / ancestry length %d, first %r / %d" % (
-                            str(h2.nc.path), len(h2.nc.ancestry or []), str(h.nc.path), len(h.nc.ancestry or []))))
+                            p2, len(h2.nc.ancestry or []), p1, len(h.nc.ancestry or []))))
             if r["hits"]:
                 stats["nontrivial"] += 1
             if problems:
